@@ -615,6 +615,38 @@ pub fn shrink(mut spaces: Vec<Space>, by: usize) -> Vec<Space> {
 // ---------------------------------------------------------------------------------------------
 // Corpus
 
+/// The SAS snippets of the repository's own inline tests (written by `check` next to the corpus
+/// directory): an alphabet of rare constructs, each pinned by a test on its own.
+pub fn load_test_strings(corpus_dir: &str) -> Vec<String> {
+    let p = std::path::Path::new(corpus_dir).parent().map(|d| d.join("teststrings.json"));
+    let Some(p) = p else { return Vec::new() };
+    std::fs::read_to_string(p).ok().and_then(|t| serde_json::from_str::<Vec<String>>(&t).ok()).unwrap_or_default()
+}
+
+/// test strings in new neighbourhoods: alone, every ordered pair (glued and separated by a line
+/// feed, thorough: also by `;`), and each one inside every nesting prefix
+pub fn test_string_inputs(corpus_dir: &str, tier: Tier, pairs: bool) -> Vec<String> {
+    let ts = load_test_strings(corpus_dir);
+    let mut v: Vec<String> = ts.clone();
+    for (p, closers) in SEEDS {
+        for t in &ts {
+            v.push(format!("{p}{t}{}", closers[closers.len() - 1]));
+        }
+    }
+    if pairs {
+        for a in &ts {
+            for b in &ts {
+                v.push(format!("{a}{b}"));
+                if tier != Tier::Quick {
+                    v.push(format!("{a}\n{b}"));
+                    v.push(format!("{a};{b}"));
+                }
+            }
+        }
+    }
+    v
+}
+
 pub struct Corpus {
     pub files: Vec<(String, String)>,
 }
